@@ -57,7 +57,8 @@ fn check_wvar(cfg: &Cfg, rep: &mut Report, tag: &str, shape: &[usize], data: &[f
                 let var = match od.weighted_var(&ow, ddof) { Ok(v) => v, Err(e) => { bad.push(format!("weighted_var returned an error | {:?} [{}/{}]", e, ld, lw)); continue; } };
                 let std = od.weighted_std(&ow, ddof).unwrap_or(f64::NAN);
                 if std.to_bits() != var.sqrt().to_bits() { bad.push(format!("weighted_std is not the square root of weighted_var | {} vs {} [{}/{}]", std, var, ld, lw)); }
-                match first_bits { None => first_bits = Some(var.to_bits()), Some(b) => if b != var.to_bits() { bad.push(format!("weighted_var depends on the memory layout | {} vs {} [{}/{}]", f64::from_bits(b), var, ld, lw)); } }
+                // the recurrence runs in logical order: logically equal operands give the same bits whatever their layouts
+                match first_bits { None => first_bits = Some(var.to_bits()), Some(b) => if b != var.to_bits() { bad.push(format!("LAYOUT weighted_var depends on the memory layout of data / weights | {} vs {} [{}/{}]", f64::from_bits(b), var, ld, lw)); continue; } }
                 if let Some((wt, m, s)) = &st {
                     let den = wt.sub(&Q::from_f64(ddof));
                     if wt.is_pos() && !den.is_zero() {
@@ -73,7 +74,7 @@ fn check_wvar(cfg: &Cfg, rep: &mut Report, tag: &str, shape: &[usize], data: &[f
             }
             bad
         });
-        match r { Err(m) => rep.fail_p(cfg, &case, "C07", "weighted variance panicked", json!({"panic": m})), Ok(bad) => if !bad.is_empty() { rep.fail_p(cfg, &case, "C07", bad[0].split(" | ").next().unwrap_or(""), json!({"problems": bad})); } }
+        match r { Err(m) => rep.fail_p(cfg, &case, "C07", "weighted variance panicked", json!({"panic": m})), Ok(bad) => if !bad.is_empty() { { let lay = bad.iter().find(|b| b.starts_with("LAYOUT ")).cloned(); let other = bad.iter().find(|b| !b.starts_with("LAYOUT ")).cloned(); if let Some(l) = lay { rep.fail_p(cfg, &case, "C07,C20", l.split(" | ").next().unwrap_or(""), json!({"problems": bad})); } if let Some(o) = other { rep.fail_p(cfg, &case, "C07", o.split(" | ").next().unwrap_or(""), json!({"problems": bad})); } }; } }
         rep.eval(&case, data.len() >= 2 && st.is_some());
         if rep.stop { return; }
     }
@@ -95,6 +96,7 @@ fn check_cmoments(cfg: &Cfg, rep: &mut Report, tag: &str, shape: &[usize], data:
     let delta = 2.0 * n as f64 * U * maxabs; // error bound of the computed mean
     let r = guarded(|| {
         let mut bad: Vec<String> = vec![];
+        let mut canon_ok = true; // the canonical (C-order) layout comes first
         for lay in layouts {
             let rl = Relayout::new(&d, lay, 4242.0);
             let v = rl.view();
@@ -112,7 +114,7 @@ fn check_cmoments(cfg: &Cfg, rep: &mut Report, tag: &str, shape: &[usize], data:
                     let a: f64 = data.iter().map(|x| ((x - m).abs() + delta).powi(p as i32)).sum::<f64>() / n as f64;
                     let tol = 8.0 * (n as f64 + p as f64) * (p as f64) * U * a;
                     let err = err_of(single, &exact);
-                    if !(err <= tol) { bad.push(format!("central_moment(p) differs from (1/n) sum (x - xbar)^p | p={} got {} (p={}) exact {} error {:e} bound {:e} [{}]", p, single, p, exact.to_f64(), err, tol, lay)); }
+                    if !(err <= tol) { bad.push(format!("{}central_moment(p) differs from (1/n) sum (x - xbar)^p | p={} got {} (p={}) exact {} error {:e} bound {:e} [{}]", if *lay != "c" && canon_ok { "LAYOUT " } else { "" }, p, single, p, exact.to_f64(), err, tol, lay)); if *lay == "c" { canon_ok = false; } }
                 }
             }
             // skewness / kurtosis: the documented functions of the central moments
@@ -129,7 +131,7 @@ fn check_cmoments(cfg: &Cfg, rep: &mut Report, tag: &str, shape: &[usize], data:
         }
         bad
     });
-    match r { Err(m) => rep.fail_p(cfg, &case, "C07", "central moments panicked", json!({"panic": m})), Ok(bad) => if !bad.is_empty() { rep.fail_p(cfg, &case, "C07", bad[0].split(" | ").next().unwrap_or(""), json!({"problems": bad})); } }
+    match r { Err(m) => rep.fail_p(cfg, &case, "C07", "central moments panicked", json!({"panic": m})), Ok(bad) => if !bad.is_empty() { { let lay = bad.iter().find(|b| b.starts_with("LAYOUT ")).cloned(); let other = bad.iter().find(|b| !b.starts_with("LAYOUT ")).cloned(); if let Some(l) = lay { rep.fail_p(cfg, &case, "C07,C20", l.split(" | ").next().unwrap_or(""), json!({"problems": bad})); } if let Some(o) = other { rep.fail_p(cfg, &case, "C07", o.split(" | ").next().unwrap_or(""), json!({"problems": bad})); } }; } }
     rep.eval(&case, n >= 2);
 }
 
@@ -207,7 +209,7 @@ pub fn moments(cfg: &mut Cfg, rep: &mut Report) {
                         }
                         bad
                     });
-                    match r { Err(m) => rep.fail_p(cfg, &case, "C07", "per-axis variance panicked", json!({"panic": m})), Ok(bad) => if !bad.is_empty() { rep.fail_p(cfg, &case, "C07", bad[0].split(" | ").next().unwrap_or(""), json!({"problems": bad})); } }
+                    match r { Err(m) => rep.fail_p(cfg, &case, "C07", "per-axis variance panicked", json!({"panic": m})), Ok(bad) => if !bad.is_empty() { { let lay = bad.iter().find(|b| b.starts_with("LAYOUT ")).cloned(); let other = bad.iter().find(|b| !b.starts_with("LAYOUT ")).cloned(); if let Some(l) = lay { rep.fail_p(cfg, &case, "C07,C20", l.split(" | ").next().unwrap_or(""), json!({"problems": bad})); } if let Some(o) = other { rep.fail_p(cfg, &case, "C07", o.split(" | ").next().unwrap_or(""), json!({"problems": bad})); } }; } }
                     rep.eval(&case, true);
                     if rep.stop { return; }
                 }
